@@ -36,7 +36,7 @@ FILES = {
     "src/node.rs": ["C05", "C01", "C07", "C16"],
     "src/cursor.rs": ["C08", "C07", "C01"],
     "src/page_node.rs": ["C08", "C01", "C07"],
-    "src/db.rs": ["C01", "C15", "C12", "C13", "C16", "C06", "C02"],
+    "src/db.rs": ["C01", "C15", "C12", "C13", "C16", "C06", "C02", "C09", "C04"],
     "src/meta.rs": ["C15", "C12", "C01"],
     "src/page.rs": ["C01", "C05", "C15"],
     "src/bytes.rs": ["C01", "C07"],
